@@ -1,6 +1,7 @@
 (* Entry points of the extracted model: [run cmd arg]. *)
 From Coq Require Import NArith List Bool.
-From PV Require Import Base.Sx Model.Forest Extract.Codec.
+From PV Require Import Base.Sx Model.Forest Model.Table Model.LRDriver Model.Scan Model.Parser
+  Validators.TableStruct Extract.Codec.
 Import ListNotations.
 Local Open Scope N_scope.
 
@@ -16,9 +17,25 @@ Definition run_forest_index (s : sx) : sx :=
   L (map (fun i => L [sx_of_otree (tree_at F i); sx_of_otree (tree_at_checked F i)])
          (sxNs (sx_nth s 1))).
 
+(* 3: table_struct (grammar table start) *)
+Definition run_table_struct (s : sx) : sx :=
+  ofB (table_struct (grammar_of_sx (sx_nth s 0)) (table_of_sx (sx_nth s 1)) (sxN (sx_nth s 2))).
+
+(* 4: LR parse: (pconf pinput fuel pos) *)
+Definition run_lr_parse (s : sx) : sx :=
+  sx_of_lr (parse_full (pconf_of_sx (sx_nth s 0)) (pinput_of_sx (sx_nth s 1))
+                       (sxNat (sx_nth s 2)) (sxN (sx_nth s 3))).
+
+(* 5: tree_ok (grammar tree) *)
+Definition run_tree_ok (s : sx) : sx :=
+  ofB (tree_ok (grammar_of_sx (sx_nth s 0)) (tree_of_sx (sx_nth s 1))).
+
 Definition run (cmd : N) (arg : sx) : sx :=
   match cmd with
   | 1 => run_forest_stats arg
   | 2 => run_forest_index arg
+  | 3 => run_table_struct arg
+  | 4 => run_lr_parse arg
+  | 5 => run_tree_ok arg
   | _ => L [A 999999]
   end.
